@@ -2,6 +2,7 @@
 from __future__ import annotations
 
 import io
+import math
 import re
 import struct
 import traceback
@@ -31,7 +32,7 @@ RULE = (
     'compared to a snapshot taken before export by a harness walker that numbers elements by object identity in '
     'attribute order (so sharing, cycles, NULL/stub identity, attribute order, original-case names, ValueType, '
     'scalar/array shape and UUIDs are all compared; UUIDs of non-stub elements are ignored only under cull_uuid, where '
-    'the identity walk is the bijection). Binary compares values exactly; text compares FLOAT/VECn/QUATERNION to 5e-7 '
+    'the identity walk is the bijection). Binary compares values exactly; text compares FLOAT/VECn/QUATERNION to 5e-7 (+4 ulp) '
     'absolute, ANGLE to 5e-7 circular, everything else exactly. Every binary stream is additionally decoded by an '
     'independent harness decoder written from the Valve format (it localises a fault to writer or reader and must agree '
     'with the snapshot). Engine "fixed": 14 hand-written minimal graphs, one per feature. Engine "kv1": seeded Keyvalues '
@@ -54,12 +55,12 @@ ASSUMPTIONS = ['pure-Python tokenizer and math classes', 'ValueType has the 14 m
                'KeyValues2 output is only checked through the library reader (no independent text decoder)']
 JOBS = {'quick': 4, 'thorough': 16}
 
-TOL = 5.000001e-7
+TOL = 5e-7
 SUFFIX = {'ELEMENT': 'elem', 'INT': 'int', 'FLOAT': 'float', 'BOOL': 'bool', 'STRING': 'str', 'BINARY': 'bin',
           'TIME': 'time', 'COLOR': 'color', 'VEC2': 'vec2', 'VEC3': 'vec3', 'VEC4': 'vec4', 'ANGLE': 'ang',
           'QUATERNION': 'quat', 'MATRIX': 'mat'}
 MODES = ['ascii', 'format', 'silent']
-FMT_NAMES = [('dmx', 1), ('model', 18), ('pcf', 2), ('x-y.z', 0), ('sfm_session', 22)]
+FMT_NAMES = [('dmx', 1), ('model', 18), ('pcf', 2), ('x-y.z', 0), ('sfm_session', 22), ('long_' + 'x' * 290, 2147483647)]
 _ESC = {'\n': '\\n', '\t': '\\t', '\v': '\\v', '\b': '\\b', '\r': '\\r', '\f': '\\f', '\a': '\\a', '\\': '\\\\',
         '"': '\\"', "'": "\\'"}
 
@@ -230,7 +231,8 @@ def _feq(a: Any, b: Any, exact: bool) -> bool:
         return a != a and b != b
     if exact or a in (float('inf'), float('-inf')) or b in (float('inf'), float('-inf')):
         return a == b
-    return abs(a - b) <= TOL
+    # '%.6f' is off by at most 0.5e-6; re-reading the decimal and subtracting add a few ulps of the value itself
+    return abs(a - b) <= TOL + 4 * math.ulp(max(abs(a), abs(b)))
 
 
 def _same(typ: str, a: Any, b: Any, exact: bool) -> bool:
@@ -251,7 +253,7 @@ def _same(typ: str, a: Any, b: Any, exact: bool) -> bool:
             return False
         for x, y in zip(a, b):
             d = abs(x - y) % 360.0
-            if min(d, 360.0 - d) > TOL:
+            if min(d, 360.0 - d) > TOL + 4 * math.ulp(360.0):
                 return False
         return True
     return len(a) == len(b) and all(_feq(x, y, exact) for x, y in zip(a, b))
@@ -440,9 +442,9 @@ def decode_bin(data: bytes, stub_uuid: bool = True) -> Tuple[List[Dict[str, Any]
             node['attrs'].append([aname, typ, is_arr, vals])
     if r.pos != len(data):
         raise DecodeError(f'{len(data) - r.pos} trailing bytes')
-    facts['non_ascii_type'] = any(ord(c) > 127 for n in nodes for c in n['type'])
-    facts['non_ascii_string_array'] = any(ord(c) > 127 for n in nodes for a in n['attrs'] if a[1] == 'STRING' and a[2]
-                                          for s in a[3] for c in s)
+    facts['non_ascii_type'] = sorted({n['type'] for n in nodes if not n['type'].isascii()})
+    facts['non_ascii_string_array'] = sorted({s for n in nodes for a in n['attrs'] if a[1] == 'STRING' and a[2]
+                                              for s in a[3] if not s.isascii()})
     facts['codes'] = sorted(facts['codes'])
     return nodes, facts
 
@@ -455,15 +457,17 @@ def classify_binary(stage: str, exc: Optional[BaseException], diff: Optional[Dic
         return 'binary-stub-no-uuid'  # the writer's stream only decodes when no UUID string follows -2
     if stage == 'parse' and spec_ok:
         if isinstance(exc, UnicodeDecodeError) and exc.encoding == 'ascii' and (w.get('unicode_header') or w.get('parse_unicode_flag')):
-            if w.get('version') == 1 and w.get('non_ascii_type'):
+            # which of the stream's strings was being decoded as ASCII (element table precedes the attributes)
+            failed = bytes(exc.object).decode('utf8', 'replace')
+            if w.get('version') == 1 and failed in w.get('non_ascii_type', ()):
                 return 'binary-v1-type-ascii'
-            if w.get('non_ascii_string_array'):
+            if failed in w.get('non_ascii_string_array', ()):
                 return 'binary-array-string-ascii'
             return 'binary-string-ascii-other'
         if isinstance(exc, KeyError) and exc.args == (0,) and w.get('scalar_code_14'):
             return 'scalar-matrix-code-14'
     if stage == 'compare' and spec_ok and diff is not None and diff.get('attr_type') == 'MATRIX' and not diff.get('attr_is_array') \
-            and w.get('scalar_code_14'):
+            and w.get('scalar_code_14') and diff['field'] in ('attr-type', 'attr-shape', 'array-length', 'value'):
         return 'scalar-matrix-code-14'
     if stage == 'decode':
         return 'binary-stream-independent-decode'
@@ -478,7 +482,8 @@ def classify_text(stage: str, exc: Optional[BaseException], diff: Optional[Dict[
         return 'kv2-export-raises'
     if w.get('raw_unescaped_attr_names'):
         return 'kv2-attr-name-unescaped'  # the text carries an attribute name verbatim that needs escapes
-    if stage == 'compare' and diff is not None and diff['field'] == 'stub-uuid':
+    if stage == 'compare' and diff is not None and diff['field'] == 'stub-uuid' and diff['got'][1] not in w.get('stub_uuids', ()):
+        # the reference is still a stub, but carries a UUID that occurs nowhere in the exported graph
         return 'kv2-stub-uuid-lost'
     return 'kv2-parse-raises' if stage == 'parse' else 'kv2-roundtrip-mismatch'
 
@@ -514,6 +519,7 @@ def roundtrip(run, root: Any, exp: List[Dict[str, Any]], feat: Dict[str, Any], c
     w: Dict[str, Any] = {'mode': mode}
     if not binary:
         w['escaped_type_names'] = sorted({h_escape(n['type']) for n in exp})
+        w['stub_uuids'] = sorted({v[1] for n in exp for a in n['attrs'] if a[1] == 'ELEMENT' for v in a[3] if v[0] == 'S'})
     buf = io.BytesIO()
     try:
         if binary:
@@ -843,7 +849,7 @@ def main(run, shard=(0, 1)) -> None:
     _preflight(run)
     probe = _probe()
     probe.start()
-    n_graphs = 24000 if thorough else 1400
+    n_graphs = 150000 if thorough else 6000
     for i in range(n_graphs):
         if not mine(i, shard):
             continue
@@ -854,7 +860,7 @@ def main(run, shard=(0, 1)) -> None:
         if mine(j, shard):
             check_graph(run, sub_rng(run.seed, 'fixed', j), spec, 'fixed', {'engine': 'fixed', 'index': j, 'label': label},
                         all_modes=True, sample=j == 0)
-    n_kv = 30000 if thorough else 1500
+    n_kv = 150000 if thorough else 5000
     for i in range(n_kv):
         if not mine(i, shard):
             continue
